@@ -102,9 +102,9 @@ Proof.
   induction l as [|x l IH]; cbn [map]; split; intros H; try constructor;
     apply StronglySorted_inv in H as [H1 H2].
   - apply IH. exact H1.
-  - apply Forall_map. exact H2.
+  - rewrite Forall_forall in *. intros y Hy. apply in_map_iff in Hy as (a & <- & Ha). apply H2. exact Ha.
   - apply IH. exact H1.
-  - apply Forall_map in H2. exact H2.
+  - rewrite Forall_forall in *. intros a Ha. apply H2. apply in_map. exact Ha.
 Qed.
 
 Lemma Forall2_in_l {A B} (R : A -> B -> Prop) s l a : Forall2 R s l -> In a s -> exists b, In b l /\ R a b.
@@ -154,15 +154,16 @@ Proof. apply groups_spec. exact z'_sorted. Qed.
 Lemma gs_ge_apex : forall g, In g gs -> name_cmp apex (fst g) <> Gt.
 Proof.
   pose proof (groups_spec z' z'_sorted) as (_ & S & _ & Hd).
-  destruct (skip_before_spec apex z) as (_ & _ & _ & Hhd). fold z' in Hhd. fold gs in S.
-  destruct z' as [|[n t] l] eqn:Ez.
-  - unfold gs. rewrite Ez. cbn. intros g [].
-  - destruct Hd as (ts & gs0 & Eg). cbn [fst] in Hhd. unfold gs. rewrite Ez, Eg.
-    fold gs in Eg. rewrite Ez in Eg. rewrite Eg in S.
+  destruct (skip_before_spec apex z) as (pre & _ & _ & Hhd).
+  unfold gs, z' in *. clear z' gs.
+  destruct (skip_before apex z) as [|[n t] l].
+  - cbn. intros g [].
+  - destruct Hd as (ts & gs0 & Eg). cbn [fst] in Hhd. rewrite Eg in *.
     apply StronglySorted_inv in S as [_ S]. rewrite Forall_forall in S.
     intros g [<-|Hg]; cbn [fst].
     + apply ends_with_le. exact Hhd.
-    + eapply name_cmp_le_trans; [apply ends_with_le; exact Hhd|]. rewrite (S g Hg). discriminate.
+    + eapply name_cmp_le_trans; [apply ends_with_le; exact Hhd|]. pose proof (S g Hg) as L.
+      unfold owners_lt in L. cbn [fst] in L. rewrite L. discriminate.
 Qed.
 
 Lemma group_types g : In g gs -> is_in_zone apex g = true ->
@@ -299,20 +300,18 @@ Theorem nsec_bitmap_exact r : In r out -> forall t,
 Proof.
   intros Hr t. destruct (out_record r Hr) as (g & ttl & ttl' & Hsel & Hg & Hz & Eo & Hv).
   rewrite Eo. eexists. split; [apply (nsec_visit_spec _ _ _ _ _ _ _ Hv (group_types_bound g Hg))|].
-  unfold nsec_type_set. rewrite !orb_true_iff, !andb_true_iff, !N.eqb_eq, memN_In.
-  rewrite (group_types g Hg Hz t). rewrite negb_true_iff.
+  unfold nsec_type_set.
   assert (D : is_zone_cut apex g = true <-> deleg apex z (fst g)).
   { rewrite <- (gcut_deleg g Hg). unfold gcut. intuition. }
   assert (M : memN t [2; 43] = true <-> t = 2 \/ t = 43).
   { rewrite memN_In. cbn [In]. intuition. }
-  rewrite M. split.
-  - intros [[[H|H]|H]|[H1 H2]]; auto.
-    + right. right. left. intuition.
-    + right. right. right. split; [exact H1|]. intros Hd. destruct H2 as [H2|H2]; [|exact H2].
-      apply D in Hd. congruence.
-  - intros [H|[H|[H|[H1 H2]]]]; auto.
-    + left. right. intuition.
-    + right. split; [exact H1|]. destruct (is_zone_cut apex g) eqn:E; [right; apply H2; apply D; reflexivity|left; reflexivity].
+  assert (T : memN t (snd g) = true <-> has_type z (fst g) t).
+  { rewrite memN_In. apply (group_types g Hg Hz t). }
+  repeat first [rewrite orb_true_iff | rewrite andb_true_iff].
+  rewrite !N.eqb_eq, negb_true_iff, T, M.
+  destruct (is_zone_cut apex g) eqn:Ec.
+  - assert (Hd : deleg apex z (fst g)) by (apply D; reflexivity). intuition congruence.
+  - assert (Hd : ~ deleg apex z (fst g)) by (intros X; apply D in X; congruence). intuition congruence.
 Qed.
 
 End Zone.
